@@ -9,6 +9,7 @@ import ast
 from ..gen import EXTRA, Kernel, Untranslatable, register
 
 T = "direct/data/transforms.py"
+MT = "direct/data/mri_transforms.py"
 ENG = "direct/nn/mri_models.py"
 RIM = "direct/nn/rim/rim.py"
 CG = "direct/nn/conjgradnet/conjgrad.py"
@@ -226,6 +227,57 @@ def _c03_extra():
 
     attempt("apply_mask_plan", b_apply_mask_plan,
             "def apply_mask_plan : Nat × Bool × Bool × Bool := (1, true, true, true)\n")
+
+    # ApplyMaskModule.forward ------------------------------------------------------------------
+    def b_module_plan():
+        fn = find_function(parse_file(REPO / MT), "ApplyMaskModule.forward")
+        calls = [n for n in ast.walk(fn) if isinstance(n, ast.Call) and ast.unparse(n.func).endswith("apply_mask")]
+        if len(calls) != 1:
+            raise Untranslatable(f"{len(calls)} apply_mask calls in ApplyMaskModule.forward")
+        call = calls[0]
+        top = [st for st in fn.body if any(n is call for n in ast.walk(st))]
+        unconditional = bool(top) and isinstance(top[0], (ast.Assign, ast.Expr, ast.Return))
+        pos = (call.lineno, call.col_offset)
+        early = sum(1 for n in ast.walk(fn) if isinstance(n, ast.Return) and (n.lineno, n.col_offset) < pos)
+        binds: dict[str, str] = {}
+        other = 0
+        for st in fn.body:
+            if (st.lineno, st.col_offset) >= (top[0].lineno, top[0].col_offset) if top else False:
+                break
+            if isinstance(st, ast.Expr) and isinstance(st.value, ast.Constant) and isinstance(st.value.value, str):
+                continue                                      # docstring
+            if (isinstance(st, ast.If) and not st.orelse and len(st.body) == 1 and isinstance(st.body[0], ast.Raise)
+                    and isinstance(st.test, ast.Compare) and len(st.test.ops) == 1 and isinstance(st.test.ops[0], ast.NotIn)
+                    and ast.unparse(st.test.comparators[0]) == "sample"):
+                continue                                      # `if key not in sample: raise …`
+            if (isinstance(st, ast.Assign) and len(st.targets) == 1 and isinstance(st.targets[0], ast.Name)
+                    and isinstance(st.value, ast.Subscript) and ast.unparse(st.value.value) == "sample"):
+                binds[st.targets[0].id] = ast.unparse(st.value.slice)
+                continue                                      # `x = sample[self.<key>]`
+            other += 1
+        args = [ast.unparse(a) for a in call.args]
+        from_input = len(args) >= 1 and binds.get(args[0], args[0].replace("sample[", "").rstrip("]")) == "self.input_kspace_key"
+        from_mask = len(args) >= 2 and binds.get(args[1], args[1].replace("sample[", "").rstrip("]")) == "self.sampling_mask_key"
+        # the (first component of the) result is what gets stored under the target key
+        stored = False
+        if top and isinstance(top[0], ast.Assign):
+            tgt = top[0].targets[0]
+            res = tgt.elts[0].id if isinstance(tgt, ast.Tuple) and tgt.elts and isinstance(tgt.elts[0], ast.Name) else None
+            if isinstance(tgt, ast.Subscript) and ast.unparse(tgt) == "sample[self.target_kspace_key]":
+                stored = True
+            for st in fn.body:
+                if (res and isinstance(st, ast.Assign) and ast.unparse(st.targets[0]) == "sample[self.target_kspace_key]"
+                        and ast.unparse(st.value) == res and st.lineno > top[0].lineno):
+                    stored = True
+        b = lambda x: "true" if x else "false"  # noqa: E731
+        return (f"/-- translated from `{MT}`:`ApplyMaskModule.forward`: (returns before the apply_mask call, statements before it "
+                f"that are neither key guards nor `x = sample[key]`, call is unconditional, k-space read from input_kspace_key, "
+                f"mask read from sampling_mask_key, result stored under target_kspace_key) -/\n"
+                f"def apply_mask_module_plan : Nat × Nat × Bool × Bool × Bool × Bool := "
+                f"({early}, {other}, {b(unconditional)}, {b(from_input)}, {b(from_mask)}, {b(stored)})\n")
+
+    attempt("apply_mask_module_plan", b_module_plan,
+            "def apply_mask_module_plan : Nat × Nat × Bool × Bool × Bool × Bool := (0, 0, true, true, true, true)\n")
 
     # apply_padding ----------------------------------------------------------------------------
     def b_apply_padding():
